@@ -67,7 +67,16 @@ def explore_item(execute: Callable[[Any, List[int]], ExecResult], params: Any, b
         prefix, used = stack.pop()
         if res["executions"] % 64 == 63:
             gc.collect()  # automatic collection is off in workers; worlds are cyclic garbage
-        r = execute(params, prefix)
+        try:
+            r = execute(params, prefix)
+        except HarnessError as e:
+            if not prefix or "replay divergence" not in str(e):
+                raise
+            # the prefix was recorded from an execution of this very scenario and no longer replays: the code under
+            # test carries state from one execution to the next (main_check decides what that means)
+            res["replay_divergences"] += 1
+            res["divergent"].append(_json_safe({"params": params, "choices": prefix, "error": str(e)}))
+            continue
         _account(res, r, params, [p.choice for p in r.trace], first)
         if first:
             # determinism: the very same choices must reproduce the very same observation
@@ -79,7 +88,9 @@ def explore_item(execute: Callable[[Any, List[int]], ExecResult], params: Any, b
             first = False
         trace = r.trace
         if len(trace) < len(prefix):
-            raise HarnessError(f"replay shorter than its prefix for {params!r}")
+            res["replay_divergences"] += 1
+            res["divergent"].append(_json_safe({"params": params, "choices": prefix, "error": "replay shorter than its prefix"}))
+            continue
         choices = [p.choice for p in trace]
         for i in range(len(prefix), len(trace)):
             p = trace[i]
